@@ -46,15 +46,15 @@ func wrapper1[T any](name string, alpha []string, n int, got, std func(string) T
 	return str1(name, alpha, n, func(s string) res {
 		g, p := try(func() T { return got(s) })
 		if p {
-			return unexpectedPanic(func() { got(s) }, fmt.Sprintf("%s(%s)", name, q(s)))
+			return unexpectedPanic(func() { got(s) }, fmt.Sprintf("%s(%s)", keyPrefix(name), q(s)))
 		}
 		w := std(s)
 		if !deepEq(g, w) {
-			return bad("differs-from-the-standard-library-function", "input %s(%s)\nexpected %#v\nobserved %#v", name, q(s), w, g)
+			return bad("differs-from-the-standard-library-function", "input %s(%s)\nexpected %#v\nobserved %#v", keyPrefix(name), q(s), w, g)
 		}
 		if naive != nil {
 			if d, applies := naive(s); applies && !deepEq(g, d) {
-				return bad("differs-from-the-documented-definition", "input %s(%s)\nexpected %#v (definition)\nobserved %#v", name, q(s), d, g)
+				return bad("differs-from-the-documented-definition", "input %s(%s)\nexpected %#v (definition)\nobserved %#v", keyPrefix(name), q(s), d, g)
 			}
 		}
 		nt := nontrivial(s, g)
@@ -69,15 +69,15 @@ func wrapper2[T any](name string, a1 []string, n1 int, a2 []string, n2 int, got,
 	return str2(name, a1, n1, a2, n2, func(s, t string) res {
 		g, p := try(func() T { return got(s, t) })
 		if p {
-			return unexpectedPanic(func() { got(s, t) }, fmt.Sprintf("%s(%s, %s)", name, q(s), q(t)))
+			return unexpectedPanic(func() { got(s, t) }, fmt.Sprintf("%s(%s, %s)", keyPrefix(name), q(s), q(t)))
 		}
 		w := std(s, t)
 		if !deepEq(g, w) {
-			return bad("differs-from-the-standard-library-function", "input %s(%s, %s)\nexpected %#v\nobserved %#v", name, q(s), q(t), w, g)
+			return bad("differs-from-the-standard-library-function", "input %s(%s, %s)\nexpected %#v\nobserved %#v", keyPrefix(name), q(s), q(t), w, g)
 		}
 		if naive != nil {
 			if d, applies := naive(s, t); applies && !deepEq(g, d) {
-				return bad("differs-from-the-documented-definition", "input %s(%s, %s)\nexpected %#v (definition)\nobserved %#v", name, q(s), q(t), d, g)
+				return bad("differs-from-the-documented-definition", "input %s(%s, %s)\nexpected %#v (definition)\nobserved %#v", keyPrefix(name), q(s), q(t), d, g)
 			}
 		}
 		if nontrivial(s, t, g) {
@@ -307,172 +307,211 @@ func stringSpaces(thorough bool) []fspace {
 			return map[string]any{"s": q(enW.At(x)), "n": y}
 		}})
 
-	// Capitalize
-	out = append(out, str1("Capitalize", alphaCase, L, func(s string) res {
-		in := "Capitalize(" + q(s) + ")"
-		got, p := try(func() string { return builtin.Capitalize(s) })
-		cls := firstNonSepClass(s)
-		if p {
-			_, msg := panicKey(func() { builtin.Capitalize(s) })
-			return bad("wrong-result-or-panic|"+cls, "input %s\nexpected one of %q\nobserved panic: %s", in, capitalizeRefs(s), msg)
-		}
-		refs := capitalizeRefs(s)
-		for _, r := range refs {
-			if got == r {
-				return ok(cls, got != s)
+	// Abbreviate over words with invalid UTF-8: an invalid byte is one rune of one
+	// byte whose decoded value (U+FFFD) has an encoded length of 3, so rune
+	// index, byte offset and summed rune lengths all differ before the cut point
+	il := 7
+	if thorough {
+		il = 8
+	}
+	enI := kit.NewStringsUpTo([]string{"a", " ", ".", "é", "\xff", "\xc3"}, il)
+	out = append(out, fspace{name: "Abbreviate.invalid", size: enI.Size() * 10,
+		eval: func(i uint64) res {
+			x, y := pair(i, enI.Size())
+			r := checkAbbreviate(enI.At(x), int(y))
+			if r.key == "" && utf8.ValidString(enI.At(x)) {
+				r.nontrivial = false // counted in Abbreviate.words
 			}
-		}
-		return bad("wrong-result-or-panic|"+cls, "input %s\nexpected one of %q\nobserved %s", in, refs, q(got))
-	}))
+			return r
+		},
+		desc: func(i uint64) any {
+			x, y := pair(i, enI.Size())
+			return map[string]any{"s": q(enI.At(x)), "n": y}
+		}})
 
-	// CapitalizeAll
-	out = append(out, str1("CapitalizeAll", alphaCase, L, func(s string) res {
-		in := "CapitalizeAll(" + q(s) + ")"
-		got, p := try(func() string { return builtin.CapitalizeAll(s) })
-		if p {
-			return unexpectedPanic(func() { builtin.CapitalizeAll(s) }, in)
-		}
-		gn := string([]rune(got))
-		r1, r2 := capitalizeAllRef(s, false), capitalizeAllRef(s, true)
-		if gn != r1 && gn != r2 {
-			return bad("not-s-with-the-first-letter-of-each-word-in-upper-case", "input %s\nexpected %s or %s (invalid bytes may be U+FFFD)\nobserved %s", in, q(r1), q(r2), q(got))
-		}
-		return ok("capitalized", gn != string([]rune(s)))
-	}))
+	// The case, search, trim and split helpers are explored twice: with the
+	// general alphabets, and (suffix ".utf8") with longer strings over a small
+	// alphabet of multi-byte runes (2, 3 and 4 bytes, multi-byte separators,
+	// runes whose case mapping has another encoded length) and invalid UTF-8
+	// (0xFF, a truncated 2-byte prefix 0xC3, a stray continuation byte 0xA9),
+	// so that every function that walks runes with byte offsets sees a
+	// difference between rune index, byte offset and encoded length well before
+	// the end of the string.
+	addTextSpaces := func(sfx string, ca []string, cl int, g []string, L, L1 int) {
+		// Capitalize
+		out = append(out, str1("Capitalize"+sfx, ca, cl, func(s string) res {
+			in := "Capitalize(" + q(s) + ")"
+			got, p := try(func() string { return builtin.Capitalize(s) })
+			cls := firstNonSepClass(s)
+			if p {
+				_, msg := panicKey(func() { builtin.Capitalize(s) })
+				return bad("wrong-result-or-panic|"+cls, "input %s\nexpected one of %q\nobserved panic: %s", in, capitalizeRefs(s), msg)
+			}
+			refs := capitalizeRefs(s)
+			for _, r := range refs {
+				if got == r {
+					return ok(cls, got != s)
+				}
+			}
+			return bad("wrong-result-or-panic|"+cls, "input %s\nexpected one of %q\nobserved %s", in, refs, q(got))
+		}))
 
-	// ToKebab
-	out = append(out, str1("ToKebab", alphaCase, L, func(s string) res {
-		in := "ToKebab(" + q(s) + ")"
-		got, p := try(func() string { return builtin.ToKebab(s) })
-		if p {
-			return unexpectedPanic(func() { builtin.ToKebab(s) }, in)
-		}
-		why := ""
-		switch {
-		case strings.HasPrefix(got, "-") || strings.HasSuffix(got, "-"):
-			why = "leading-or-trailing-dash"
-		case strings.Contains(got, "--"):
-			why = "double-dash"
-		case strings.ToLower(got) != got:
-			why = "upper-case-letter-left"
-		case strings.IndexFunc(got, unicode.IsSpace) >= 0:
-			why = "white-space-left"
-		case !utf8.ValidString(got):
-			why = "invalid-utf8-left"
-		}
-		if why == "" {
-			if again := builtin.ToKebab(got); again != got {
-				why = "not-idempotent"
+		// CapitalizeAll
+		out = append(out, str1("CapitalizeAll"+sfx, ca, cl, func(s string) res {
+			in := "CapitalizeAll(" + q(s) + ")"
+			got, p := try(func() string { return builtin.CapitalizeAll(s) })
+			if p {
+				return unexpectedPanic(func() { builtin.CapitalizeAll(s) }, in)
 			}
-		}
-		if why != "" {
-			return bad("result-is-not-in-kebab-case|"+why, "input %s\nobserved %s", in, q(got))
-		}
-		// every letter or digit of s that has a case or is a digit survives, in order, lower-cased
-		var want, have []rune
-		for _, r := range s {
-			if unicode.IsLower(r) || unicode.IsUpper(r) || unicode.IsDigit(r) {
-				want = append(want, unicode.ToLower(r))
+			gn := string([]rune(got))
+			r1, r2 := capitalizeAllRef(s, false), capitalizeAllRef(s, true)
+			if gn != r1 && gn != r2 {
+				return bad("not-s-with-the-first-letter-of-each-word-in-upper-case", "input %s\nexpected %s or %s (invalid bytes may be U+FFFD)\nobserved %s", in, q(r1), q(r2), q(got))
 			}
-		}
-		for _, r := range got {
-			if r != '-' {
-				have = append(have, r)
-			}
-		}
-		if string(want) != string(have) {
-			return bad("result-loses-or-invents-letters", "input %s\nexpected the letters %q separated by dashes\nobserved %s", in, string(want), q(got))
-		}
-		return ok("kebab", strings.Contains(got, "-"))
-	}))
+			return ok("capitalized", gn != string([]rune(s)))
+		}))
 
-	// ToLower / ToUpper
-	out = append(out, wrapper1("ToLower", alphaCase, L, builtin.ToLower, strings.ToLower,
-		func(s string) (string, bool) { return mapRunes(s, unicode.ToLower) },
-		func(s string, v string) bool { return v != s }))
-	out = append(out, wrapper1("ToUpper", alphaCase, L, builtin.ToUpper, strings.ToUpper,
-		func(s string) (string, bool) { return mapRunes(s, unicode.ToUpper) },
-		func(s string, v string) bool { return v != s }))
+		// ToKebab
+		out = append(out, str1("ToKebab"+sfx, ca, cl, func(s string) res {
+			in := "ToKebab(" + q(s) + ")"
+			got, p := try(func() string { return builtin.ToKebab(s) })
+			if p {
+				return unexpectedPanic(func() { builtin.ToKebab(s) }, in)
+			}
+			why := ""
+			switch {
+			case strings.HasPrefix(got, "-") || strings.HasSuffix(got, "-"):
+				why = "leading-or-trailing-dash"
+			case strings.Contains(got, "--"):
+				why = "double-dash"
+			case strings.ToLower(got) != got:
+				why = "upper-case-letter-left"
+			case strings.IndexFunc(got, unicode.IsSpace) >= 0:
+				why = "white-space-left"
+			case !utf8.ValidString(got):
+				why = "invalid-utf8-left"
+			}
+			if why == "" {
+				if again := builtin.ToKebab(got); again != got {
+					why = "not-idempotent"
+				}
+			}
+			if why != "" {
+				return bad("result-is-not-in-kebab-case|"+why, "input %s\nobserved %s", in, q(got))
+			}
+			// every letter or digit of s that has a case or is a digit survives, in order, lower-cased
+			var want, have []rune
+			for _, r := range s {
+				if unicode.IsLower(r) || unicode.IsUpper(r) || unicode.IsDigit(r) {
+					want = append(want, unicode.ToLower(r))
+				}
+			}
+			for _, r := range got {
+				if r != '-' {
+					have = append(have, r)
+				}
+			}
+			if string(want) != string(have) {
+				return bad("result-loses-or-invents-letters", "input %s\nexpected the letters %q separated by dashes\nobserved %s", in, string(want), q(got))
+			}
+			return ok("kebab", strings.Contains(got, "-"))
+		}))
 
-	// RuneCount
-	out = append(out, wrapper1("RuneCount", g, L, builtin.RuneCount, utf8.RuneCountInString,
-		func(s string) (int, bool) {
-			n := 0
-			for range s {
-				n++
-			}
-			return n, true
-		}, func(s string, v int) bool { return v != len(s) }))
+		// ToLower / ToUpper
+		out = append(out, wrapper1("ToLower"+sfx, ca, cl, builtin.ToLower, strings.ToLower,
+			func(s string) (string, bool) { return mapRunes(s, unicode.ToLower) },
+			func(s string, v string) bool { return v != s }))
+		out = append(out, wrapper1("ToUpper"+sfx, ca, cl, builtin.ToUpper, strings.ToUpper,
+			func(s string) (string, bool) { return mapRunes(s, unicode.ToUpper) },
+			func(s string, v string) bool { return v != s }))
 
-	// HtmlEscape
-	out = append(out, wrapper1("HtmlEscape", []string{"<", ">", "&", "\"", "'", "a", "é", "\xff"}, L,
-		func(s string) string { return string(builtin.HtmlEscape(s)) }, htmlRef.Replace, nil,
-		func(s string, v string) bool { return v != s }))
+		// RuneCount
+		out = append(out, wrapper1("RuneCount"+sfx, g, L+1, builtin.RuneCount, utf8.RuneCountInString,
+			func(s string) (int, bool) {
+				n := 0
+				for range s {
+					n++
+				}
+				return n, true
+			}, func(s string, v int) bool { return v != len(s) }))
 
-	// search helpers
-	out = append(out, wrapper2("HasPrefix", g, L, g, L1, builtin.HasPrefix, strings.HasPrefix,
-		func(s, t string) (bool, bool) { return len(s) >= len(t) && s[:len(t)] == t, true },
-		func(s, t string, v bool) bool { return v && t != "" }))
-	out = append(out, wrapper2("HasSuffix", g, L, g, L1, builtin.HasSuffix, strings.HasSuffix,
-		func(s, t string) (bool, bool) { return len(s) >= len(t) && s[len(s)-len(t):] == t, true },
-		func(s, t string, v bool) bool { return v && t != "" }))
-	out = append(out, wrapper2("Index", g, L, g, L1, builtin.Index, strings.Index,
-		func(s, t string) (int, bool) { return naiveIndex(s, t), true },
-		func(s, t string, v int) bool { return v > 0 }))
-	out = append(out, wrapper2("LastIndex", g, L, g, L1, builtin.LastIndex, strings.LastIndex,
-		func(s, t string) (int, bool) { return naiveLastIndex(s, t), true },
-		func(s, t string, v int) bool { return v >= 0 && t != "" }))
-	out = append(out, wrapper2("IndexAny", g, L, g, L1, builtin.IndexAny, strings.IndexAny,
-		func(s, t string) (int, bool) { return naiveIndexAny(s, t), true },
-		func(s, t string, v int) bool { return v >= 0 }))
+		if sfx == "" { // HtmlEscape (C24 is its exhaustive check)
+			out = append(out, wrapper1("HtmlEscape", []string{"<", ">", "&", "\"", "'", "a", "é", "\xff"}, L,
+				func(s string) string { return string(builtin.HtmlEscape(s)) }, htmlRef.Replace, nil,
+				func(s string, v string) bool { return v != s }))
+		}
 
-	// trimming
-	out = append(out, wrapper2("Trim", g, L, g, L1, builtin.Trim, strings.Trim,
-		func(s, t string) (string, bool) { return naiveTrimRight(naiveTrimLeft(s, t), t), true },
-		func(s, t string, v string) bool { return v != s }))
-	out = append(out, wrapper2("TrimLeft", g, L, g, L1, builtin.TrimLeft, strings.TrimLeft,
-		func(s, t string) (string, bool) { return naiveTrimLeft(s, t), true },
-		func(s, t string, v string) bool { return v != s }))
-	out = append(out, wrapper2("TrimRight", g, L, g, L1, builtin.TrimRight, strings.TrimRight,
-		func(s, t string) (string, bool) { return naiveTrimRight(s, t), true },
-		func(s, t string, v string) bool { return v != s }))
-	out = append(out, wrapper2("TrimPrefix", g, L, g, L1, builtin.TrimPrefix, strings.TrimPrefix,
-		func(s, t string) (string, bool) {
-			if len(s) >= len(t) && s[:len(t)] == t {
-				return s[len(t):], true
-			}
-			return s, true
-		}, func(s, t string, v string) bool { return v != s }))
-	out = append(out, wrapper2("TrimSuffix", g, L, g, L1, builtin.TrimSuffix, strings.TrimSuffix,
-		func(s, t string) (string, bool) {
-			if len(s) >= len(t) && s[len(s)-len(t):] == t {
-				return s[:len(s)-len(t)], true
-			}
-			return s, true
-		}, func(s, t string, v string) bool { return v != s }))
+		// search helpers
+		out = append(out, wrapper2("HasPrefix"+sfx, g, L, g, L1, builtin.HasPrefix, strings.HasPrefix,
+			func(s, t string) (bool, bool) { return len(s) >= len(t) && s[:len(t)] == t, true },
+			func(s, t string, v bool) bool { return v && t != "" }))
+		out = append(out, wrapper2("HasSuffix"+sfx, g, L, g, L1, builtin.HasSuffix, strings.HasSuffix,
+			func(s, t string) (bool, bool) { return len(s) >= len(t) && s[len(s)-len(t):] == t, true },
+			func(s, t string, v bool) bool { return v && t != "" }))
+		out = append(out, wrapper2("Index"+sfx, g, L, g, L1, builtin.Index, strings.Index,
+			func(s, t string) (int, bool) { return naiveIndex(s, t), true },
+			func(s, t string, v int) bool { return v > 0 }))
+		out = append(out, wrapper2("LastIndex"+sfx, g, L, g, L1, builtin.LastIndex, strings.LastIndex,
+			func(s, t string) (int, bool) { return naiveLastIndex(s, t), true },
+			func(s, t string, v int) bool { return v >= 0 && t != "" }))
+		out = append(out, wrapper2("IndexAny"+sfx, g, L, g, L1, builtin.IndexAny, strings.IndexAny,
+			func(s, t string) (int, bool) { return naiveIndexAny(s, t), true },
+			func(s, t string, v int) bool { return v >= 0 }))
 
-	// splitting
-	splitNT := func(s, t string, v []string) bool { return len(v) > 1 }
-	out = append(out, wrapper2("Split", g, L, g, L1, builtin.Split, strings.Split,
-		func(s, t string) ([]string, bool) { // documented edge cases
-			if s == "" && t == "" {
-				return []string{}, true
-			}
-			if t != "" && naiveIndex(s, t) < 0 {
-				return []string{s}, true
-			}
-			return nil, false
-		}, splitNT))
-	out = append(out, wrapper2("SplitAfter", g, L, g, L1, builtin.SplitAfter, strings.SplitAfter,
-		func(s, t string) ([]string, bool) {
-			if s == "" && t == "" {
-				return []string{}, true
-			}
-			if t != "" && naiveIndex(s, t) < 0 {
-				return []string{s}, true
-			}
-			return nil, false
-		}, splitNT))
+		// trimming
+		out = append(out, wrapper2("Trim"+sfx, g, L, g, L1, builtin.Trim, strings.Trim,
+			func(s, t string) (string, bool) { return naiveTrimRight(naiveTrimLeft(s, t), t), true },
+			func(s, t string, v string) bool { return v != s }))
+		out = append(out, wrapper2("TrimLeft"+sfx, g, L, g, L1, builtin.TrimLeft, strings.TrimLeft,
+			func(s, t string) (string, bool) { return naiveTrimLeft(s, t), true },
+			func(s, t string, v string) bool { return v != s }))
+		out = append(out, wrapper2("TrimRight"+sfx, g, L, g, L1, builtin.TrimRight, strings.TrimRight,
+			func(s, t string) (string, bool) { return naiveTrimRight(s, t), true },
+			func(s, t string, v string) bool { return v != s }))
+		out = append(out, wrapper2("TrimPrefix"+sfx, g, L, g, L1, builtin.TrimPrefix, strings.TrimPrefix,
+			func(s, t string) (string, bool) {
+				if len(s) >= len(t) && s[:len(t)] == t {
+					return s[len(t):], true
+				}
+				return s, true
+			}, func(s, t string, v string) bool { return v != s }))
+		out = append(out, wrapper2("TrimSuffix"+sfx, g, L, g, L1, builtin.TrimSuffix, strings.TrimSuffix,
+			func(s, t string) (string, bool) {
+				if len(s) >= len(t) && s[len(s)-len(t):] == t {
+					return s[:len(s)-len(t)], true
+				}
+				return s, true
+			}, func(s, t string, v string) bool { return v != s }))
+
+		// splitting
+		splitNT := func(s, t string, v []string) bool { return len(v) > 1 }
+		out = append(out, wrapper2("Split"+sfx, g, L, g, L1, builtin.Split, strings.Split,
+			func(s, t string) ([]string, bool) { // documented edge cases
+				if s == "" && t == "" {
+					return []string{}, true
+				}
+				if t != "" && naiveIndex(s, t) < 0 {
+					return []string{s}, true
+				}
+				return nil, false
+			}, splitNT))
+		out = append(out, wrapper2("SplitAfter"+sfx, g, L, g, L1, builtin.SplitAfter, strings.SplitAfter,
+			func(s, t string) ([]string, bool) {
+				if s == "" && t == "" {
+					return []string{}, true
+				}
+				if t != "" && naiveIndex(s, t) < 0 {
+					return []string{s}, true
+				}
+				return nil, false
+			}, splitNT))
+	}
+	addTextSpaces("", alphaCase, L, g, L, L1)
+	if thorough {
+		addTextSpaces(".utf8", alphaCaseLong, 6, alphaSearchLong, 6, 2)
+	} else {
+		addTextSpaces(".utf8", alphaCaseLong, 5, alphaSearchLong, 5, 2)
+	}
 	for _, after := range []bool{false, true} {
 		after := after
 		name, got, std := "SplitN", builtin.SplitN, strings.SplitN
